@@ -47,6 +47,33 @@ template<typename S> static void observe(const S& s, uint64_t n, const char* fam
   sig(mix64(mix64(reinterpret_cast<uintptr_t>(fam) & 0xff, c.lg_k), mix64(s.get_num_retained(), static_cast<uint64_t>(s.get_theta() * 1e9))));
 }
 
+// Tuple only: keys with key % special_mod == 0 carry summary 3.0, all others 1.0; filter(summary > 2) of the update sketch or
+// of its compact form is a derived sketch for the sub-population "special keys", whose true count is tracked.
+static uint64_t g_special_mod = 1;
+static bool is_special(uint64_t key) { return key % g_special_mod == 0; }
+
+template<typename F> static void observe_filtered(const F& fs, uint64_t n_special, uint64_t n, const Cfg& c, const char* what) {
+  const Chain ch = read_chain(fs);
+  auto ctx = [&] { return std::string(what) + " lg_k=" + std::to_string(c.lg_k) + " p=" + str(c.p) + " n=" + std::to_string(n) + " true count of the filtered sub-population=" + std::to_string(n_special) +
+                          " retained=" + std::to_string(fs.get_num_retained()) + " theta=" + str(fs.get_theta()) + " is_empty=" + std::to_string(fs.is_empty()); };
+  check_chain_lazy(ch, "tuple_filter", ctx);
+  if (!fs.is_estimation_mode()) {
+    VF_CHECK(ch.est == static_cast<double>(n_special), "tuple_filter|exact-mode|estimate-not-n", ctx() + " " + ch.to_string());
+    count("sk_tuple_filter_exact");
+  } else {
+    const double sigma = std::max(ch.est - ch.lb[1], ch.ub[1] - ch.est);
+    VF_CHECK(std::fabs(ch.est - static_cast<double>(n_special)) <= 8.0 * sigma + 10.0, "tuple_filter|true-count-beyond-8-published-std-devs-of-estimate", ctx() + " sigma=" + str(sigma) + " " + ch.to_string());
+    count(fs.get_num_retained() == 0 ? "sk_tuple_filter_estimating_nothing_retained" : "sk_tuple_filter_estimating");
+    if (fs.get_num_retained() == 0 && n_special > 0) count("sk_tuple_filter_nothing_retained_but_subpopulation_nonempty");
+  }
+}
+template<typename SK> static void filter_checks(const SK&, uint64_t, uint64_t, const Cfg&) {}
+static void filter_checks(const update_tuple_sketch<double>& s, uint64_t n_special, uint64_t n, const Cfg& c) {
+  auto pred = [](const double& v) { return v > 2.0; };
+  if (n & 1) observe_filtered(s.filter(pred), n_special, n, c, "filter(summary>2) of update sketch");
+  else { const auto cs = s.compact((n & 2) != 0); observe_filtered(cs.filter(pred), n_special, n, c, "filter(summary>2) of compact sketch"); }
+}
+
 template<typename SK, typename UN, typename MK, typename MKU, typename UPD>
 static void stream(const Cfg& c, Rng& r, const char* fam, const char* ufam, MK make, MKU make_union, UPD upd) {
   SK main_sk = make();
@@ -71,8 +98,10 @@ static void stream(const Cfg& c, Rng& r, const char* fam, const char* ufam, MK m
     observe(res, 0, ufam, c, "union of nothing");
     if (c.reuse) { const auto res0 = ureuse.get_result(); observe(res0, 0, ufam, c, "reset union"); }
   }
+  uint64_t n_special = 0;
   for (uint64_t i = 0; i < c.nmax; ++i) {
     const uint64_t key = bij(c.base + i);
+    if (is_special(key)) ++n_special;
     upd(main_sk, key);
     upd(parts[i % c.parts], key);
     if (r.unit() < c.overlap) upd(parts[r.below(c.parts)], key);
@@ -82,6 +111,7 @@ static void stream(const Cfg& c, Rng& r, const char* fam, const char* ufam, MK m
     if (obs) {
       observe(main_sk, n, fam, c, "update sketch");
       if ((n & 7) == 0 || n <= 8) { const auto cs = main_sk.compact(); observe(cs, n, fam, c, "compact sketch"); }
+      if ((n & 3) <= 1 || n <= 8) filter_checks(main_sk, n_special, n, c);
       count("sk_checkpoints");
     }
     if (static_cast<double>(n) >= next_union || n == c.nmax || n == k || n == 2 * k) {
@@ -218,8 +248,9 @@ void run_case(uint64_t idx, Rng& r) {
   c.overlap = r.chance(0.5) ? 0.0 : 0.3;
   c.base = r.next();
   c.step = 1.02 + 0.2 * r.unit();
+  { static const uint64_t mods[] = {1, 2, 17, 300, 5000, 100000, 1ULL << 62}; g_special_mod = mods[r.below(7)]; }
   describe(std::string(c.tuple ? "tuple" : "theta") + " lg_k=" + std::to_string(c.lg_k) + " p=" + str(c.p) + " rf=" + std::to_string(c.rf) + " n=" + std::to_string(c.nmax) +
-           " parts=" + std::to_string(c.parts) + " overlap=" + str(c.overlap) + " reuse_after_reset=" + std::to_string(c.reuse) + " keybase=" + std::to_string(c.base));
+           " parts=" + std::to_string(c.parts) + " overlap=" + str(c.overlap) + " reuse_after_reset=" + std::to_string(c.reuse) + " special_mod=" + std::to_string(g_special_mod) + " keybase=" + std::to_string(c.base));
   if (!c.tuple) {
     stream<update_theta_sketch, theta_union>(c, r, "theta", "theta_union",
       [&] { return update_theta_sketch::builder().set_lg_k(c.lg_k).set_p(c.p).set_resize_factor(static_cast<resize_factor>(c.rf)).build(); },
@@ -230,7 +261,7 @@ void run_case(uint64_t idx, Rng& r) {
     stream<TS, tuple_union<double>>(c, r, "tuple", "tuple_union",
       [&] { return TS::builder().set_lg_k(c.lg_k).set_p(c.p).set_resize_factor(static_cast<resize_factor>(c.rf)).build(); },
       [&] { return tuple_union<double>::builder().set_lg_k(c.lg_k).set_resize_factor(static_cast<resize_factor>(c.rf)).build(); },
-      [](TS& s, uint64_t key) { s.update(key, 1.0); });
+      [](TS& s, uint64_t key) { s.update(key, is_special(key) ? 3.0 : 1.0); });
   }
   if (want_sample()) sample("{\"config\":" + jstr(G().cur_desc) + "}");
 }
